@@ -158,6 +158,11 @@ fn alphabet(len: usize, full: bool) -> Vec<SOp> {
         SOp::AppendSlice(vec![]),
         SOp::AppendSlice(vec![0x11]),
         SOp::AppendSlice(vec![0x21, 0x22, 0x23]),
+        SOp::AppendSlice((1..=9).collect()),
+        SOp::AppendSlice(vec![0; 4]),
+        SOp::AppendU32(0),
+        SOp::AppendU64(0),
+        SOp::SinkByte(0),
         SOp::SinkByte(0x5a),
         SOp::SinkWord(0x1234),
         SOp::SinkDword(0x89ab_cdef),
@@ -192,6 +197,10 @@ fn alphabet(len: usize, full: bool) -> Vec<SOp> {
         v.push(SOp::WriteBytes(o, vec![]));
         v.push(SOp::WriteBytes(o, vec![0xee]));
         v.push(SOp::WriteBytes(o, vec![0x31, 0x32, 0x33]));
+        if !full {
+            v.push(SOp::WriteBytes(o, (0x41..=0x49).collect()));
+            v.push(SOp::WriteU8(o, 0));
+        }
     }
     v
 }
